@@ -98,7 +98,37 @@ def judge_chan(check, scns, name, trace, runs, v, module, consts):
                         {"scenario": s2, "run": run, "events": extract_run(trace, run), "module": module, "consts": {k2: tla_val(x2) for k2, x2 in consts.items()}, "invariant": x["inv"]})
 
 
-def conform_chan(check, name, scns, module, consts, parallel=8):
+def conform_chan(check, name, scns, module, consts, parallel=8, relax_kf=False, expect_stalls=False):
     trace, runs, v = check.conform(scns, name, module, consts, parallel=parallel)
+    if relax_kf and v["violations"] and all(x["inv"] == "InvLinearizable" for x in v["violations"]) and kf_open(KF_SPURIOUS_EMPTY):
+        # what the relaxed rule of the recorded finding explains is that finding; the rest stays a violation
+        bad = {}
+        for x in v["violations"]:
+            bad[(x["run"]["scn"], x["run"]["run"])] = x
+        sub, sub_runs = subtrace(trace, [x["run"] for x in bad.values()], "relax")
+        c2 = dict(consts)
+        c2["RelaxEmpty"] = True
+        v2 = validate_trace(sub, sub_runs, module, c2, "%s_%s_relax" % (check.prop, name), parallel=4)
+        for e in v2["errors"]:
+            check.tool_errors.append("relaxed re-validation %s: %s" % (name, e))
+        still = set((x["run"]["scn"], x["run"]["run"]) for x in v2["violations"]) | set((x["run"]["scn"], x["run"]["run"]) for x in v2["mismatches"])
+        for k, x in bad.items():
+            if k not in still:
+                check.known_finding(KF_SPURIOUS_EMPTY, "AtomicMove: a dequeue answers 'empty' although an item published before its call is still queued, because the item's sequence number was claimed by another dequeue that is itself giving up")
+        v = dict(v)
+        v["violations"] = [x for k, x in bad.items() if k in still]
     judge_chan(check, scns, name, trace, runs, v, module, consts)
+    if not expect_stalls:
+        odd = [r for r in runs if r["outcome"] in ("stalled", "steplimit")]
+        flagged = set((x["run"]["scn"], x["run"]["run"]) for x in v["violations"])
+        odd = [r for r in odd if (r["scn"], r["run"]) not in flagged]
+        if odd and "InvNoStall" not in [q.strip('"') for q in consts.get("Checks", [])]:
+            check.notes.append("%s: %d run(s) ended %s (first: %s run %d, %s)" % (name, len(odd), odd[0]["outcome"], odd[0]["scn"], odd[0]["run"], json.dumps(odd[0]["finals"])[:300]))
+    if runs:
+        sample_run(check, trace, runs, scns, "validated API-level history of the real channel (%s)" % name)
     return trace, runs, v
+
+
+def explore2(name, kind, n, s_, threads, c, mr, rr, seed_extra=0, **kw):
+    return [cscn("%s_dfs" % name, kind, n, s_, threads, dfs(2, mr), **kw),
+            cscn("%s_rnd" % name, kind, n, s_, threads, rnd(rr, c.seed * 1000 + seed_extra + n * 10 + s_), **kw)]
